@@ -6,7 +6,7 @@
     through any listed site that is not that initialisation -- and the theorem that, the table
     being what it is, every read in every interleaving observes the initialised value, so what
     a call computes does not depend on the schedule or on the calls before it. *)
-From PQL Require Import Model.Compile Gen.Shared Proofs.TableFacts.
+From PQL Require Import Model.Compile Gen.Shared Proofs.SharedFacts.
 From Coq Require Import Lia.
 Local Open Scope list_scope.
 Local Open Scope nat_scope.
